@@ -292,7 +292,6 @@ theorem VM.neBool {v : LuaValue N} {c : Bool} (h : VM v (.bool c)) :
 /-- the local condition of `h8` at a binary node -/
 def localOK (op : BinOp) (vl vr : LuaValue N) : Bool :=
   match op with
-  | .eq | .ne => numEqOK E vl vr
   | .concat => concatOK E vl vr
   | _ => true
 
@@ -322,14 +321,14 @@ theorem binop_value_sound (A : Agree N E) {op : BinOp} (h1 : op ≠ .and) (h2 : 
     · rw [evaluateEqual_unknown E hu]; trivial
     · rw [binopVal_eq hm] at h
       cases h
-      exact evaluateEqual_sound hl hr hlocal (fun x y => (hmeta (Or.inl rfl) x y).2.2) (hfn (Or.inl rfl))
+      exact evaluateEqual_sound hl hr (fun x y => (hmeta (Or.inl rfl) x y).2.2) (hfn (Or.inl rfl))
   case ne =>
     simp only [evaluateBinary]
     rcases eq_prep hl hr (hmeta (Or.inr rfl)) with hu | hm
     · rw [evaluateEqual_unknown E hu]; trivial
     · rw [binopVal_ne hm] at h
       cases h
-      exact (evaluateEqual_sound hl hr hlocal (fun x y => (hmeta (Or.inr rfl) x y).2.2) (hfn (Or.inr rfl))).neBool
+      exact (evaluateEqual_sound hl hr (fun x y => (hmeta (Or.inr rfl) x y).2.2) (hfn (Or.inr rfl))).neBool
   case concat => exact evaluateConcat_sound hl hr hlocal h
   case lt => exact evaluateRelational_sound (Or.inl rfl) hl hr h
   case le => exact evaluateRelational_sound (Or.inr (Or.inl rfl)) hl hr h
@@ -657,13 +656,13 @@ theorem goodSegs_v {e : Expr} {rest : List Seg} (ihe : Good E call ρ k env e) (
     GoodSegs E call ρ k env (.v e :: rest) := by
   intro acc σ σ' s h8e hr
   simp only [evalSegs] at hr
-  simp only [h8Segs, Bool.and_eq_true, Bool.or_eq_true, Bool.not_eq_true'] at h8e
-  obtain ⟨⟨h8v, hunk⟩, h8r⟩ := h8e
+  simp only [h8Segs, Bool.and_eq_true] at h8e
+  obtain ⟨h8v, h8r⟩ := h8e
   obtain ⟨ev, σ1, e1, hr1⟩ := bind_ok hr
   obtain ⟨ts, σ2, e2, hr2⟩ := bind_ok hr1
   obtain ⟨se, xe⟩ := ihe σ σ1 ev h8v e1
-  simp only [evaluateSegs, hseSegs, Bool.or_eq_false_iff]
-  refine ⟨?_, fun hp => ?_⟩
+  simp only [evaluateSegs, hseSegs, Bool.not_false, Bool.true_and, Bool.or_eq_false_iff, maybeMeta_eq]
+  refine ⟨?_, fun hp0 => ?_⟩
   · cases hst : segText (evaluate E e) with
     | none => exact Or.inl rfl
     | some t =>
@@ -671,10 +670,8 @@ theorem goodSegs_v {e : Expr} {rest : List Seg} (ihe : Good E call ρ k env e) (
       obtain ⟨h1, h2⟩ := tostringVal_nometa (hm σ1) e2
       rw [h1, h2, hb] at hr2
       exact (ih _ σ1 σ' s h8r hr2).1
-  · have hu : isUnknown (evaluate E e) = false := by
-      rcases hunk with h | h
-      · exact h
-      · rw [hp.1] at h; cases h
+  · have hu : isUnknown (evaluate E e) = false := hp0.1.1
+    have hp : hasSideEffects E false e = false ∧ hseSegs E false rest = false := ⟨hp0.1.2, hp0.2⟩
     have ex := xe hp.1
     obtain ⟨h1, _⟩ := tostringVal_nometa (metaOf_fresh se.vm hu ex.fresh) e2
     rw [h1] at hr2
